@@ -29,8 +29,8 @@ class Obligation:
 
 class Path:
     def __init__(self, env=None, hyps=None):
-        self.env = env or {}
-        self.hyps = hyps or []
+        self.env = env if env is not None else {}
+        self.hyps = hyps if hyps is not None else []
         self.guards = []          # short-circuit guards during expression evaluation
 
     def copy(self):
@@ -86,6 +86,7 @@ class Evaluator:
         self.eng = engine
         self.modname = modname
         self.cls_name = cls_name
+        self.qdepth = 0
 
     # -- helpers --------------------------------------------------------
     def oblige(self, path, kind, site, goal, exc=None):
@@ -237,6 +238,8 @@ class Evaluator:
         return self.subscript(base, idx, path, spec, ast.unparse(node))
 
     def subscript(self, base, idx, path, spec, site):
+        if isinstance(base, VObj) and base.cls == 'SCFG':
+            base = base.f['graph']
         k = base.ty[0]
         if k == 'seq':
             n = S.seq_n(base)
@@ -436,8 +439,12 @@ class Evaluator:
         q = z3.FreshConst(S.sort_of(qt), 'q')
         saved = dict(path.env)
         path.env.update(bind(q))
-        conds = [dom(q)] + [self.ev_bool(c, path, spec) for c in g.ifs]
-        inner = self.quantify(gens[1:], body_fn, path, spec, universal)
+        self.qdepth += 1
+        try:
+            conds = [dom(q)] + [self.ev_bool(c, path, spec) for c in g.ifs]
+            inner = self.quantify(gens[1:], body_fn, path, spec, universal)
+        finally:
+            self.qdepth -= 1
         path.env.clear()
         path.env.update(saved)
         if universal:
@@ -452,10 +459,51 @@ class Evaluator:
 
         def body():
             return self.ev(node.elt, path, spec).t == y
-        f = self.quantify(node.generators, body, path, spec, False)
+        self.qdepth += 1
+        try:
+            f = self.quantify(node.generators, body, path, spec, False)
+        finally:
+            self.qdepth -= 1
         path.env.clear()
         path.env.update(saved)
-        return V(('set', probe), z3.Lambda([y], f))
+        if self.qdepth > 0 or self.eng.in_axiom:
+            return V(('set', probe), z3.Lambda([y], f))
+        # top level: a named set with its defining axiom (friendlier to the solver than a lambda);
+        # the same text over the same state denotes the same constant
+        key = self.state_key(node, path)
+        hit = self.eng.set_cache.get(key)
+        if hit is not None:
+            sc, ax = hit
+        else:
+            sc = z3.FreshConst(S.sort_of(('set', probe)), 'setc')
+            ax = ForAll([y], Select(sc, y) == f, patterns=[Select(sc, y)])
+            # redundant introduction form (forall generators. conds => elt in sc): lets
+            # pattern-based instantiation find members that have no `sc[..]` term yet
+            saved2 = dict(path.env)
+            self.qdepth += 1
+            try:
+                intro = self.quantify(node.generators, lambda: Select(sc, self.ev(node.elt, path, spec).t), path, spec, True)
+            finally:
+                self.qdepth -= 1
+                path.env.clear()
+                path.env.update(saved2)
+            ax = And(ax, intro)
+            self.eng.set_cache[key] = (sc, ax)
+        if not any(ax.eq(h) for h in path.hyps):
+            path.hyps.append(ax)
+        return V(('set', probe), sc)
+
+    def state_key(self, node, path):
+        def vid(v):
+            if isinstance(v, V):
+                return ('t', v.t.get_id() if v.t is not None else 0)
+            if isinstance(v, VObj):
+                return ('o',) + tuple((k, vid(x)) for k, x in sorted(v.f.items()))
+            if isinstance(v, Namespace):
+                return ('ns',) + tuple((k, vid(x)) for k, x in sorted(v.env.items()) if isinstance(x, (V, VObj)))
+            return ('x', id(v))
+        names = sorted({n.id for n in ast.walk(node) if isinstance(n, ast.Name)})
+        return (ast.dump(node), self.modname) + tuple((n, vid(path.env[n])) for n in names if n in path.env)
 
     def probe_type(self, elt, gens, path, spec):
         saved = dict(path.env)
@@ -528,6 +576,8 @@ class Engine:
         self.axioms: list = []          # global axioms introduced on demand (pure-function contracts, sorted, ...)
         self._axiom_keys = set()
         self.catch = None               # try/except support
+        self.in_axiom = False
+        self.set_cache = {}
         self.assumptions_used = set()
         self.loop_counter = {}
         self.pre_env = None
@@ -667,7 +717,12 @@ class Engine:
                    patterns=[Select(S.seq_arr(L), k)]),
             ForAll([A, x], Implies(Select(A, x), And(0 <= idx(A, x), idx(A, x) < S.seq_n(L),
                                                       Select(S.seq_arr(L), idx(A, x)) == x)),
-                   patterns=[z3.MultiPattern(f(A), Select(A, x))])))
+                   patterns=[z3.MultiPattern(f(A), Select(A, x))]),
+            # explicit instances for the first two positions (gives the solver the terms L[0], L[1])
+            ForAll([A], And(Implies(S.seq_n(L) > 0, Select(A, Select(S.seq_arr(L), 0))),
+                            Implies(S.seq_n(L) > 1, And(Select(A, Select(S.seq_arr(L), 1)),
+                                                        Select(S.seq_arr(L), 0) != Select(S.seq_arr(L), 1)))),
+                   patterns=[f(A)])))
         self.assumptions_used.add('sets are finite (sorted(S) exists)')
         return V(('seq', et), f(s.t))
 
@@ -1361,11 +1416,15 @@ class Engine:
         env = {n: self.rebuild(vals[n], n, consts) for n in c.params}
         res = V(rty, fsym(*[consts[n].t for n, _ in flat]))
         scratch = Path({}, [])
-        env2 = dict(env)
-        env2['old'] = Namespace(dict(env))
-        env2['result'] = res
-        req = [self.spec_formula(ast.parse(t, mode='eval').body, env, scratch, cm) for t in c.requires.values()]
-        ens = [self.spec_formula(ast.parse(t, mode='eval').body, env2, scratch, cm) for t in c.ensures.values()]
+        prev, self.in_axiom = self.in_axiom, True
+        try:
+            env2 = dict(env)
+            env2['old'] = Namespace(dict(env))
+            env2['result'] = res
+            req = [self.spec_formula(ast.parse(t, mode='eval').body, env, scratch, cm) for t in c.requires.values()]
+            ens = [self.spec_formula(ast.parse(t, mode='eval').body, env2, scratch, cm) for t in c.ensures.values()]
+        finally:
+            self.in_axiom = prev
         if scratch.hyps:
             raise Unsupported('pure contract %s uses constructs that need definitional assumptions' % c.qual)
         if not ens:
@@ -1427,6 +1486,12 @@ class Engine:
         if isinstance(st.value, ast.Call) and isinstance(st.value.func, ast.Attribute) \
                 and isinstance(st.value.func.value, ast.Name) and st.value.func.value.id == '_logger':
             self.assumptions_used.add('_logger.debug(...) is effect-free (dropped)')
+            return [(path, None)]
+        if isinstance(st.value, ast.Yield):
+            v = self.evaluator().ev(st.value.value, path, False)
+            cur = path.env['_yielded']
+            self.add_obligation(path, 'yield-once', ast.unparse(st.value), Not(Select(cur.t, v.t)))
+            path.env['_yielded'] = V(cur.ty, Store(cur.t, v.t, True))
             return [(path, None)]
         self.evaluator().ev(st.value, path, False)
         return [(path, None)]
@@ -1555,14 +1620,22 @@ class Engine:
         c = ev.ev_bool(st.test, path, False)
         c = z3.simplify(c)
         out = []
-        if not z3.is_false(c):
+        for cond, body in ((c, st.body), (Not(c), st.orelse)):
+            if z3.is_false(z3.simplify(cond)):
+                continue
             p1 = path.copy()
-            p1.assume(c)
-            out += self.run(st.body, p1)
-        if not z3.is_true(c):
-            p2 = path.copy()
-            p2.assume(Not(c))
-            out += self.run(st.orelse, p2)
+            p1.assume(cond)
+            try:
+                out += self.run(body, p1)
+            except Unsupported:
+                # an unsupported construct on an infeasible path does not matter
+                s_ = z3.Solver()
+                s_.set('timeout', 3000)
+                s_.add(*background(self))
+                s_.add(*p1.hyps)
+                if s_.check() != z3.unsat:
+                    raise
+                self.pruned.append(ast.unparse(st.test))
         return out
 
     def st_Try(self, st, path):
@@ -1719,6 +1792,12 @@ class Engine:
         for cn, text in spec.inv.items():
             path.assume(self.spec_formula(ast.parse(text, mode='eval').body, env, path))
 
+    def assume_lemmas(self, spec, env, path):
+        """Axiom instances (e.g. the closure principle of reachability) assumed at the loop head."""
+        for cn, text in spec.assume.items():
+            path.assume(self.spec_formula(ast.parse(text, mode='eval').body, env, path))
+            self.assumptions_used.add('axiom instance %s: %s' % (cn, text))
+
     def st_For(self, st, path):
         ev = self.evaluator()
         key, spec = self.loop_spec(st)
@@ -1800,7 +1879,9 @@ class Engine:
         envh = base_env(p)
         envh[gname] = V(gty, g)
         self.assume_inv(spec, envh, p)
+        self.assume_lemmas(spec, envh, p)
         p.env.update(bind(q))
+        p.env[gname] = V(gty, g)
         outs = self.run(st.body, p)
         for p2, o in outs:
             if o in (None, 'continue'):
@@ -1817,6 +1898,7 @@ class Engine:
         env3 = base_env(p3)
         env3[gname] = V(gty, n_it if mode == 'index' else whole.t)
         self.assume_inv(spec, env3, p3)
+        self.assume_lemmas(spec, env3, p3)
         # targets assigned by the loop are unknown afterwards
         for tn in [n.id for n in ast.walk(st.target) if isinstance(n, ast.Name)]:
             if tn in p3.env and isinstance(p3.env[tn], V) and p3.env[tn].ty != T_NONE:
@@ -1838,6 +1920,7 @@ class Engine:
         p = path.copy()
         self.havoc(p, names, locs)
         self.assume_inv(spec, base_env(p), p)
+        self.assume_lemmas(spec, base_env(p), p)
         c = ev.ev_bool(st.test, p, False)
         pb = p.copy()
         pb.assume(c)
@@ -1890,6 +1973,7 @@ class Engine:
                 seen[k] = seen.get(k, 0) + 1
         self.bound_loops = set()
         self.unproved_termination = []
+        self.pruned = []
         # parameter check against the real signature
         real = [a.arg for a in self.fn.args.args]
         if real != list(c.params):
@@ -1897,6 +1981,8 @@ class Engine:
         env = {n: self.symbolic_param(n, t) for n, t in c.params.items()}
         self.pre_env = {k: (v.copy() if isinstance(v, VObj) else v) for k, v in env.items()}
         self.old_ns = Namespace(self.pre_env)
+        if c.yields:
+            env['_yielded'] = S.set_empty(S.parse_type(c.returns)[1])
         path = Path(env, [])
         for cn, text in c.requires.items():
             path.assume(self.spec_bool(text, self.pre_env, path))
@@ -1922,6 +2008,8 @@ class Engine:
             if o in ('break', 'continue'):
                 raise Unsupported('break/continue outside loop')
             res = o[1]
+            if c.yields:
+                res = p.env['_yielded']
             fenv = dict(p.env)
             for n in c.params:
                 fenv.setdefault(n, self.pre_env[n])
